@@ -42,7 +42,7 @@ func (c *FnCtx) step(frame *Frame, st *State, in ssa.Instruction) (forkFn, bool)
 		st.env[x] = scalar(x.Type(), r)
 		c.closures[r] = x
 	case *ssa.MakeMap:
-		r := c.allocRef(st, "map")
+		r := c.allocRefT(st, "map", x.Type())
 		key := mapKeyOf(x.Type())
 		dn := arrName("D", key, "", "Bool")
 		c.heapSet(st, dn, sto(c.heapGet(st.heap, dn), r, "((as const (Array Int Bool)) false)"))
@@ -245,6 +245,9 @@ func (c *FnCtx) unop(st *State, x *ssa.UnOp) bool {
 		lv := c.load(st, a)
 		c.assumeAllocated(st, lv)
 		lv = retype(lv, x.Type())
+		if g, ok := x.X.(*ssa.Global); ok {
+			c.sentinelFacts(st, g, lv)
+		}
 		st.env[x] = lv
 	default:
 		c.errs = append(c.errs, "unsupported unary op "+x.Op.String())
@@ -858,4 +861,24 @@ func valEq(a, b Val) string {
 		parts = append(parts, valEq(a.F[i], b.F[i]))
 	}
 	return and(parts...)
+}
+
+// sentinelFacts: a package-level error variable that is only assigned during package
+// initialisation from errors.New / fmt.Errorf is non-nil, and distinct from the other such
+// sentinels (errors.New returns a distinct pointer each time).
+func (c *FnCtx) sentinelFacts(st *State, g *ssa.Global, v Val) {
+	if v.K != KIface || !types.Identical(g.Type().(*types.Pointer).Elem(), types.Universe.Lookup("error").Type()) {
+		return
+	}
+	if !c.eng.initOnlyGlobal(g) || !c.eng.initFromErrorsNew(g) {
+		return
+	}
+	st.assume(not(eq(v.S, "0")))
+	for og, ov := range c.sentinels {
+		if og != g {
+			st.assume(not(eq(v.S, ov)))
+		}
+	}
+	c.sentinels[g] = v.S
+	c.note("error sentinels assigned once at package initialisation are non-nil and pairwise distinct")
 }
